@@ -831,6 +831,10 @@ def run(ctx, out, tier):
     shared.sh_merge(ctx, out, ctx.reachable_bodies())
     check_parse_entry(ctx, out)
     shared.sh_main(ctx, out)
+    # `the exit status agrees with what remains`: the exit / report skeleton and main's paths (shared with C11)
+    from rules.C11 import check_exit, check_paths
+    shared.run_renamed(out, lambda o: check_exit(ctx, o), "C11", "C14")
+    check_paths(ctx, out, rule="C14.paths")
     return meta()
 
 
